@@ -29,7 +29,7 @@ def gen_history(rnd, mode, idx, flavour_cycle):
     return {"mode": mode, "target": rnd.choice(["logger", "logger", "bare"]), "producers": producers, "msgs": max(msgs, 5),
             "sink": rnd.choice([0, 1, 2, 3, 4]), "noise": rnd.choice(NOISES).format(s=rnd.randint(1, 10 ** 6)),
             "cores": cores, "seed": rnd.randint(1, 10 ** 9), "burst": rnd.choice([0, 1, 10, 100, 500]),
-            "flavour": flavour}
+            "flavour": flavour, "switches": (rnd.choice([0, 0, 0, 5, 40]) if mode == "c02" else 0)}
 
 
 def run_history(ctx, h, idx):
@@ -44,6 +44,8 @@ def run_history(ctx, h, idx):
     argv = [exe, h["mode"], out, h["target"], str(h["producers"]), str(h["msgs"]), str(h["sink"]), h["noise"], str(h["cores"]), str(h["seed"])]
     if h["mode"] == "c03":
         argv.append(str(h["burst"]))
+    elif h.get("switches"):
+        argv.append(str(h["switches"]))
     res = {"rc": None, "err": "", "v": [], "stats": {}, "tsan": None, "hooks": "", "stacks": ""}
     errp = os.path.join(d, "stderr")
     with open(errp, "wb") as errf:
